@@ -89,16 +89,21 @@ func VH_C06_ShortBufferThenNext(version int) {
 func VH_C06_TransportAbandoned() {
 	vhConcreteClock(true)
 	dials := 0
-	mkConn := func(node int32) *vhFakeConn {
+	mkConn := func(node int32, gated bool) *vhFakeConn {
 		w := &vhW{}
 		w.i16(0)
 		w.i32(node)
 		w.str("h")
 		w.i32(9092)
 		f1 := vhApiVersionsFrame(1, []vhApiRange{{10, 0, 0}, {3, 0, 1}})
-		return &vhFakeConn{data: append(f1, vhFrameOf(2, w.b)...)}
+		c := &vhFakeConn{data: append(append([]byte{}, f1...), vhFrameOf(2, w.b)...)}
+		if gated {
+			// the answer to the first request after the version negotiation stays on its way until released
+			c.gate, c.gateAfter = make(chan struct{}), len(f1)
+		}
+		return c
 	}
-	conns := []*vhFakeConn{mkConn(100), mkConn(200)}
+	conns := []*vhFakeConn{mkConn(100, true), mkConn(200, false)}
 	ready := make(event)
 	close(ready)
 	p := &connPool{
@@ -121,24 +126,25 @@ func VH_C06_TransportAbandoned() {
 		resA, errA = p.roundTrip(ctxA, &pfindcoordinator.Request{Key: "A"})
 		doneA = true
 	}()
-	// A dials, hands its request to connection 1 and waits; the connection's loop has not run yet
-	vhRunNamed("VH_C06_TransportAbandoned$", 0)
-	vhRunNamed("grabConnOrConnect$", 0)
-	vhRunNamed("VH_C06_TransportAbandoned$", 0)
+	// A dials connection 1, hands its request to the connection's loop (rendezvous on the unbuffered request
+	// channel), the loop writes it and waits for the answer, which is still on its way
+	vhRunAll()
+	vhRunAll()
+	vhRunAll()
+	vhAssert(dials == 1 && len(conns[0].written) > 0, "request-A-is-in-flight-on-connection-1")
 	vhAssert(!doneA, "call-A-waits-for-its-response")
 	cancelA()
-	vhRunNamed("VH_C06_TransportAbandoned$", 0)
+	vhRunAll()
 	vhAssert(doneA && errA != nil && resA == nil, "abandoned-call-returns-its-context-error")
 	go func() {
 		resB, errB = p.roundTrip(context.Background(), &pfindcoordinator.Request{Key: "B"})
 		doneB = true
 	}()
-	vhRunNamed("VH_C06_TransportAbandoned$", 0)
-	vhRunNamed("grabConnOrConnect$", 0)
-	vhRunNamed("VH_C06_TransportAbandoned$", 0)
-	// the broker answers A's abandoned request first, then B's
-	vhRunNamed(").run", 0)
-	vhRunNamed(").run", 1)
+	vhRunAll()
+	vhRunAll()
+	vhRunAll()
+	// the broker's answer to the abandoned request arrives late
+	close(conns[0].gate)
 	vhRunAll()
 	vhRunAll()
 	vhAssert(doneB, "call-B-completes")
